@@ -7,6 +7,10 @@ export GOFLAGS=-mod=mod GOPROXY=off GOSUMDB=off GOTOOLCHAIN=local
 FILTER="${1:-}"; TESTS=0; [ "${2:-}" = "--tests" ] && TESTS=1
 if [ -n "$(git -C /repo status --porcelain --untracked-files=no)" ]; then echo "selftest: /repo has uncommitted changes; refusing"; exit 2; fi
 pass=0; fail=0; failed=()
+# mutant runs rewrite evidence/*.json: keep the evidence of the unchanged tree
+EVBAK=$(mktemp -d); cp -a evidence/. "$EVBAK"/ 2>/dev/null
+restore_ev() { cp -a "$EVBAK"/. evidence/ 2>/dev/null; rm -rf "$EVBAK"; }
+trap restore_ev EXIT
 for d in selftest/mutants/*.diff seeded/*/patch.diff; do
   case "$d" in
     seeded/*) n=$(basename "$(dirname "$d")"); prop=$(python3 -c "import json,sys;print(json.load(open(sys.argv[1]))['property'])" "$(dirname "$d")/meta.json");;
